@@ -99,7 +99,7 @@ def run(chk, tier):
 
     def models():
         try:
-            to = 3000 if thorough else 900
+            to = 7000 if thorough else 900
             if variant == "last" and thorough:
                 model["main"] = ("ns2_t", common.tlc("LookupArg", cfg="LookupArg_ns2_t", workers=6, timeout=to, tag="c08main"))
             else:
@@ -167,7 +167,7 @@ def run(chk, tier):
         u = rnd.random()
         row = {"id": s["id"], "tables": s["tables"], "expect": s["expect"], "interleave": n % 2 == 1, "kinds": kinds, "strategies": strategies,
                "classes": s["classes"]}
-        if u < 0.06 and by_width[w]["zk"]:
+        if u < (0.03 if thorough else 0.06) and by_width[w]["zk"]:
             # blinding makes the circuit large: one forged proof per scenario
             row["cfg"] = rnd.choice(by_width[w]["zk"])
             row["ext_every"] = 1000
@@ -184,7 +184,7 @@ def run(chk, tier):
         rows.append(row)
     import time
     t0 = time.time()
-    res = run_parallel(rows, "c08_run", 6, extra=["--max-cor", "30" if thorough else "24"], timeout=6000 if thorough else 1500)
+    res = run_parallel(rows, "c08_run", 8 if thorough else 6, extra=["--max-cor", "30" if thorough else "24"], timeout=14000 if thorough else 1500)
     log("[c08] replay of %d scenarios: %d result lines in %.0fs" % (len(rows), len(res), time.time() - t0))
     byid = {s["id"]: s for s in rows}
     judge(chk, byid, res, rule, variant)
